@@ -32,6 +32,7 @@ import Driver.Stop
 import Driver.MemPoolConc
 import Driver.KeyId
 import Driver.FutexGen
+import Driver.MigRules
 import Driver.UnitMapLock
 
 def main (args : List String) : IO UInt32 := do
@@ -73,5 +74,6 @@ def main (args : List String) : IO UInt32 := do
   | ["mempoolconc"] => Driver.MemPoolConc.main; return 0
   | ["keyid"] => Driver.KeyId.main; return 0
   | ["futexgen"] => Driver.FutexGen.main; return 0
+  | ["migrules"] => Driver.MigRules.main; return 0
   | ["unitmaplock"] => Driver.UnitMapLock.main; return 0
   | _ => IO.eprintln "usage: driver <model>  (htable)"; return 2
